@@ -49,6 +49,9 @@ fn c19_set2_pair(p: u8) {
         // the two one-shot status codes: only "a status byte is not a release" is demanded
         assert!(release_of(&d).is_none(), "C19: a status byte decoded as a release");
     }
+    // state identity: after a complete sequence the decoder is back at the start, so pairing from the
+    // canonical contexts extends to sequences met anywhere in a stream
+    assert!(sd == ScancodeSet2::new() && su == ScancodeSet2::new(), "C19 closure: Set 2 decoder not back in its initial state after a complete sequence");
     kani::cover!(press_of(&d).is_some());
     kani::cover!(d.is_err());
 }
@@ -71,6 +74,7 @@ fn c19_set1_pair(p: u8) {
         assert!(u.is_err() || release_of(&u).is_some(), "C19: a break sequence decoded to something other than a release");
     }
     assert!(d.is_err() || press_of(&d).is_some(), "C19: a make sequence decoded to something other than a press");
+    assert!(sd == ScancodeSet1::new() && (break_is_prefix || su == ScancodeSet1::new()), "C19 closure: Set 1 decoder not back in its initial state after a complete sequence");
     kani::cover!(press_of(&d).is_some());
     kani::cover!(d.is_err());
 }
@@ -167,4 +171,68 @@ pub fn c19_t_set2_stream_pairing() {
     crate::show!("C19 set2 stream prefix={} code={:#04x} make={:?} break={:?}", p, c, d, u);
     assert!(press_of(&d) == release_of(&u), "C19: back-to-back make and break name different keys");
     kani::cover!(press_of(&d).is_some());
+}
+
+/// Deep (also run when a closure assertion fails): pairing of a sequence that follows an arbitrary
+/// complete sequence (valid or garbage) on the same decoder.
+#[kani::proof]
+pub fn c19_t_set2_pairing_after_any_sequence() {
+    let p0: u8 = kani::any();
+    let p: u8 = kani::any();
+    kani::assume(p0 < 6 && p < 3);
+    let c0: u8 = kani::any();
+    let c: u8 = kani::any();
+    kani::assume(c != 0xE0 && c != 0xE1 && c != 0xF0 && c0 != 0xE0 && c0 != 0xE1 && c0 != 0xF0);
+    kani::assume(!(p == 0 && (c == 0x00 || c == 0xAA)));
+    // two decoders with the same first sequence (prefix context p0, then code c0)
+    let mut a = ctx2(p0);
+    let mut b = ctx2(p0);
+    let ra = a.advance_state(c0);
+    let _ = b.advance_state(c0);
+    let feed = |s: &mut ScancodeSet2, brk: bool| -> ScanResult {
+        if p == 1 {
+            let _ = s.advance_state(0xE0);
+        } else if p == 2 {
+            let _ = s.advance_state(0xE1);
+        }
+        if brk {
+            let _ = s.advance_state(0xF0);
+        }
+        s.advance_state(c)
+    };
+    let d = feed(&mut a, false);
+    let u = feed(&mut b, true);
+    crate::show!("C19 set2 after ({},{:#04x})->{:?}: prefix={} code={:#04x} make={:?} break={:?}", p0, c0, ra, p, c, d, u);
+    assert!(press_of(&d) == release_of(&u), "C19: after another sequence, press and release of a sequence name different keys (or only one of them decodes)");
+    assert!(d.is_err() || press_of(&d).is_some(), "C19: after another sequence, a make sequence decoded to something other than a press");
+    kani::cover!(ra.is_err() && press_of(&d).is_some());
+}
+
+#[kani::proof]
+pub fn c19_t_set1_pairing_after_any_sequence() {
+    let p0: u8 = kani::any();
+    let p: u8 = kani::any();
+    kani::assume(p0 < 3 && p < 3);
+    let c0: u8 = kani::any();
+    let c: u8 = kani::any();
+    kani::assume(c < 0x80);
+    kani::assume(!(p0 == 0 && (c0 == 0xE0 || c0 == 0xE1)));
+    kani::assume(!(p == 0 && (c == 0x60 || c == 0x61)));
+    let mut a = ctx1(p0);
+    let mut b = ctx1(p0);
+    let ra = a.advance_state(c0);
+    let _ = b.advance_state(c0);
+    let feed = |s: &mut ScancodeSet1, brk: bool| -> ScanResult {
+        if p == 1 {
+            let _ = s.advance_state(0xE0);
+        } else if p == 2 {
+            let _ = s.advance_state(0xE1);
+        }
+        s.advance_state(c | if brk { 0x80 } else { 0 })
+    };
+    let d = feed(&mut a, false);
+    let u = feed(&mut b, true);
+    crate::show!("C19 set1 after ({},{:#04x})->{:?}: prefix={} code={:#04x} make={:?} break={:?}", p0, c0, ra, p, c, d, u);
+    assert!(press_of(&d) == release_of(&u), "C19: after another sequence, press and release of a sequence name different keys (or only one of them decodes)");
+    kani::cover!(ra.is_err() && press_of(&d).is_some());
 }
